@@ -55,6 +55,8 @@ func init() {
 				newSrvWorld(e, cfg).run()
 			}},
 			{Name: "sctp-faults", Weight: 1, Bubble: true, Run: c15Sctp},
+			{Name: "sweep-placement", Bubble: true, Run: c15Sweep, SweepN: c15SweepN, QuickSweep: true, Exhaustive: true,
+				SweepNote: "3 connections x 3 requests; one fault of each of 9 kinds (handler panic, reset mid-message, 7 kinds of undecodable message) at every (connection, position), with 0 or 3 temporary accept errors first; the delivery/release schedule of each case is seeded: 216 cases"},
 		},
 		MustProbes: []string{"late-connection", "malformed-reported", "recovered-panic-logged", "runtime-registration", "sctp-read-error", "long-accept-error-run"},
 	})
@@ -63,5 +65,53 @@ func init() {
 func c16Tcp(e *Env) {
 	t := e.T
 	cfg := srvCfg{prop: "C16", nConns: t.Range(1, 2), nDialled: t.Draw(2), msgsPer: [2]int{1, 6}, parkPct: 15, answerPct: 100, wideHdr: true, deferPct: 35}
+	newSrvWorld(e, cfg).run()
+}
+
+func c15SweepN(thorough bool) int { return 3 * 4 * 9 * 2 }
+
+func c15Sweep(e *Env) {
+	k := e.Case
+	f := &srvForce{}
+	f.conn = k % 3
+	k /= 3
+	f.pos = k % 4
+	k /= 4
+	kind := k % 9
+	k /= 9
+	f.acceptErrs = k * 3
+	switch {
+	case kind == 0:
+		f.kind = "panic"
+		if f.pos > 2 {
+			f.pos = 2
+		}
+	case kind == 1:
+		f.kind = "rst-mid"
+	default:
+		f.kind, f.malformed = "malformed", kind-2
+	}
+	e.NonTrivial()
+	cfg := srvCfg{prop: "C15", nConns: 3, msgsPer: [2]int{3, 3}, parkPct: 25, answerPct: 100,
+		panicPct: 1, malformed: true, rst: true, acceptErrs: true, lateConn: true, extraReg: true, force: f}
+	newSrvWorld(e, cfg).run()
+}
+
+var c16SweepRC = []uint32{0, 2001, 3004, 5012, 0xffffffff}
+
+func c16SweepN(thorough bool) int { return 4 * 4 * 128 * len(c16SweepRC) }
+
+func c16Sweep(e *Env) {
+	k := e.Case
+	h := &hdrForce{}
+	h.hbh = c16IDs[k%4]
+	k /= 4
+	h.e2e = c16IDs[k%4]
+	k /= 4
+	h.flags = 0x80 | byte(k%128)
+	k /= 128
+	h.rc = c16SweepRC[k]
+	e.NonTrivial()
+	cfg := srvCfg{prop: "C16", nConns: 1, msgsPer: [2]int{1, 1}, answerPct: 100, wideHdr: true, hdr: h}
 	newSrvWorld(e, cfg).run()
 }
